@@ -1309,8 +1309,8 @@ pub fn random_request_opts(rng: &mut Rng, nspec: usize, tweak: &dyn Fn(&mut Cfg)
             fasta[1].1 = format!("{}K{}R{}", &fasta[1].1[..8.min(fasta[1].1.len())], piece, &fasta[1].1[8.min(fasta[1].1.len())..]);
         }
     }
-    // FASTA-supplied decoys in some runs
-    if rng.chance(1, 4) {
+    // FASTA-supplied decoys in some runs (never in the mirror run: it is about GENERATED decoys)
+    if !opts.mirror && rng.chance(1, 4) {
         cfg.gen_decoys = false;
         // one run in three of these has NO decoy record at all: a target-only database, for which the rescoring
         // model cannot be fitted and the runner's heuristic fallback score is reported (seeded C15-J)
